@@ -58,21 +58,22 @@ theorem slideStep_nocfg (fuel : Nat) (f : FUid) (h : HUid) (vm : VM) (e : VMErr)
   unfold slideStep
   simp only [bind, EStateM.bind, hcfg]
 
-/-- the elements `slide` may meet in flow `f`: scope elements, labels, `send` elements, effect-free elements, and the elements that stop
-    the slide -/
+/-- the elements `slide` may meet in flow `f`: scope elements, labels, `send` elements, conditional jumps, assignments, effect-free elements, and the
+    elements that stop the slide -/
 def SlideElem : Prim → Prop
-  | .endScope _ | .beginScope _ | .label _ | .other | .matchOp _ _ | .otherOp _ | .sendOp _ => True
+  | .endScope _ | .beginScope _ | .label _ | .other | .matchOp _ _ | .otherOp _ | .sendOp _ | .goto _ _ | .assign _ _ => True
   | _ => False
 
 variable (ν φ : String → Nat)
 
 /-- hypotheses on flow `f`, for every state: its elements are `SlideElem`s, its scope dict has unique keys, the name oracle of every
-    position and the event construction of every `send` element are frames -/
+    position, the event construction of every `send` element and every expression evaluation are frames -/
 structure SlideHyp (f : FUid) : Prop where
   elems : ∀ vm cfg, cfgOfInst f vm = .ok cfg vm → ∀ pos, pos < cfg.elements.size → SlideElem cfg.elements[pos]!
   scopes : ∀ (vm : VM) x, OMap.lookup f vm.r.fx = some x → (x.scopes.map (·.1)).Nodup
   names : ∀ p, NameRO f p
   events : ∀ spec, EventFrame f spec
+  exprs : ∀ e, ExprFrame f e
 
 /-- one iteration of `slideLoop` is a refined step, or leaves the state alone -/
 theorem slideStep_refined (f : FUid) (h : HUid) (hyp : SlideHyp f) (fuel : Nat) (vm vm' : VM) (r : Bool × List Key)
@@ -111,6 +112,10 @@ theorem slideStep_refined (f : FUid) (h : HUid) (hyp : SlideHyp f) (fuel : Nat) 
           exact Or.inr (.op (.other fuel f h cfg hd r s vm' hcfg hhd hpos hprim (hyp.names _) hrun))
         | sendOp spec =>
           exact Or.inr (.op (.send fuel f h cfg hd spec r s vm' hcfg hhd hpos hprim (hyp.events spec) (hyp.names _) hrun))
+        | goto e label =>
+          exact Or.inr (.op (.goto fuel f h cfg hd e label r s vm' hcfg hhd hpos hprim (hyp.exprs e) hyp.names hrun))
+        | assign key e =>
+          exact Or.inr (.op (.assign fuel f h cfg hd key e r s vm' hcfg hhd hpos hprim (hyp.exprs e) (hyp.names _) hrun))
         | matchOp spec b =>
           rw [slideStep_match fuel f h s cfg hd spec b hcfg hhd hpos hprim] at hrun
           cases hrun; exact Or.inl rfl
